@@ -147,6 +147,55 @@ func ruleBrkSlide(w *World, r *Report) {
 	})
 	if n == 0 {
 		r.violation("BRK-SLIDE", "fn="+fname(fn)+" store=updated", w.Pos(fn.Pos()), "slide no longer advances OutboundBreaker.updated")
+		return
+	}
+	// catch-up clause: the shift is capped at the window length (premise: a comparison of the shift with len(counts)
+	// guards an assignment of that length to it); a window that has aged out completely can lie any number of
+	// intervals back, and whole ticks of a *capped* shift bring the clock forward by one interval only.  Some store to
+	// `updated` therefore takes the `now` parameter itself.  Without it, after k idle intervals each of the next k
+	// calls wipes the window again: limit + k - 1 calls are admitted in one burst.
+	capped := false
+	allInstrs(fn, func(in ssa.Instruction) {
+		if p, ok := in.(*ssa.Phi); ok {
+			if b, isB := p.Type().Underlying().(*types.Basic); isB && b.Info()&types.IsInteger != 0 {
+				for _, e := range p.Edges {
+					if c, isC := e.(*ssa.Call); isC {
+						if bi, isBi := c.Common().Value.(*ssa.Builtin); isBi && bi.Name() == "len" {
+							capped = true
+						}
+					}
+				}
+			}
+		}
+	})
+	if !capped || len(fn.Params) < 2 {
+		return
+	}
+	now := fn.Params[1]
+	jump := false
+	allInstrs(fn, func(in ssa.Instruction) {
+		if st, ok := storesToField(in, ob, "updated"); ok {
+			v := resolveSpill(st.Val)
+			if v == ssa.Value(now) {
+				jump = true
+			}
+			if u, isU := v.(*ssa.UnOp); isU && u.Op == token.MUL {
+				// the parameter spilled to a slot (a struct)
+				if al, isAl := u.X.(*ssa.Alloc); isAl {
+					for _, ref := range *al.Referrers() {
+						if s2, isS := ref.(*ssa.Store); isS && s2.Addr == ssa.Value(al) && s2.Val == ssa.Value(now) {
+							jump = true
+						}
+					}
+				}
+			}
+		}
+	})
+	key := "fn=" + fname(fn) + " catch-up"
+	if jump {
+		r.ok("BRK-SLIDE", key, w.Pos(fn.Pos()), "a window that has aged out completely restarts at `now`")
+	} else {
+		r.violation("BRK-SLIDE", key, w.Pos(fn.Pos()), "the shift is capped at the window length and the clock only ever advances by whole ticks of it: after k idle intervals the clock is k-1 intervals behind, and each of the next calls wipes the window again (limit + k - 1 calls in one burst)")
 	}
 }
 
